@@ -61,6 +61,10 @@ T = {
  'C09': dict(design='4/C09', technique='property-based differential testing of the multi-frequency steady state against exact per-frequency phasors with true Fourier coefficients + superposition / KCL / Bessel-bound relations',
              text='Generated RLC circuits with DC, sinusoidal and periodic ideal sources whose frequencies coincide exactly or only up to rounding x w_max x instants; the frequency list, every spectral line, every time function, KCL at every instant, the sum of single-source responses, the reproduction of a periodic source\'s waveform (Bessel bound) and the two-sided mirror symmetry are checked.',
              note='All sources ideal; ambiguous frequency spacings and w_max at a non-dyadic harmonic are not judged; open finding F8 (two-sided spectrum raises) is reported as KNOWN-FINDING.'),
+
+ 'C13': dict(design='4/C13', technique='property-based testing over generated drawing programs: union-find model oracle, consistent node bijection, exact electrical reference, metamorphic geometric transformations',
+             text='Generated drawing programs (all supported symbols, wires, chains, junctions, labels, ground; plain and rendered execution) are translated and compared with an independent model of what the drawing depicts: component kinds/values/terminal order, node identity (two terminals are one node iff they coincide or are joined by wires), label and reference names, the exact solution of the intended netlist, and invariance under rotation, translation, rescaling, wire subdivision and insertion-order permutation.',
+             note='Placement by .endpoints only; symbols are kept longer than their body; electrical comparisons skip ill-posed / ill-conditioned drawings (e.g. closed switches); sin-referenced sources are not generated.'),
 }
 
 DEFAULT_LEVEL = 'exploration'
